@@ -79,7 +79,7 @@ func runC07(c *Ctx) {
 		f := w.Facts(fn)
 		var fcall *ssa.Call
 		for _, call := range callsIn(fn) {
-			if cv, ok := call.(*ssa.Call); ok && cv.Call.StaticCallee() == filter {
+			if cv, ok := call.(*ssa.Call); ok && (cv.Call.StaticCallee() == filter || w.unwrapObserver(cv.Call.StaticCallee()) == filter) {
 				fcall = cv
 			}
 		}
@@ -728,9 +728,10 @@ func checkExpiryPass(c *Ctx, fn *ssa.Function) {
 				if !isRem {
 					continue
 				}
-				arg := rc.Call.Args[len(rc.Call.Args)-1]
-				if strip(arg) == strip(certV) || w.Expr(arg) == w.Expr(certV) {
-					found = true
+				for _, arg := range rc.Call.Args {
+					if strip(arg) == strip(certV) || w.Expr(arg) == w.Expr(certV) {
+						found = true
+					}
 				}
 			}
 		}
